@@ -68,12 +68,14 @@ func vfDoWrite(c *Conn, wp int, mt int, data []byte, k int) error {
 			return err
 		}
 		// this is what io.Copy does when the destination is an io.ReaderFrom
+		// the source may return its last bytes together with io.EOF (legal for an io.Reader)
+		src := &vfChunkReader{data: data, chunk: k, eofWithData: vfChoose(2) == 1}
 		if rf, ok := w.(io.ReaderFrom); ok {
-			if _, err := rf.ReadFrom(&vfChunkReader{data: data, chunk: k}); err != nil {
+			if _, err := rf.ReadFrom(src); err != nil {
 				return err
 			}
 		} else {
-			if _, err := io.Copy(w, &vfChunkReader{data: data, chunk: k}); err != nil {
+			if _, err := io.Copy(w, src); err != nil {
 				return err
 			}
 		}
